@@ -499,8 +499,10 @@ def boundary_sequences(rng, tier):
                 out.append({"specs": [csm, r, x, gen_frame(rng, "req", mm, [], False)], "maxmsg": mm, "npend": 1, "role": "client"})
             # the same with a write backlog, and on connections opened by concurrent first requests
             x2 = gen_frame(rng, k, mm, [], False)
-            out.append({"specs": [csm, x2], "maxmsg": mm, "npend": 2, "role": "client", "backlog": True, "few": True})
-            out.append({"specs": [csm, x2], "maxmsg": mm, "npend": 2, "role": "client", "spawn": "concurrent", "backlog": mm == 64, "few": True})
+            if mm == 64:
+                out.append({"specs": [csm, x2], "maxmsg": mm, "npend": 2, "role": "client", "backlog": True, "few": True})
+            else:
+                out.append({"specs": [csm, x2], "maxmsg": mm, "npend": 2, "role": "client", "spawn": "concurrent", "backlog": k in ("tkl", "badopt"), "few": True})
     # signalling messages with token and diagnostic payload, across the 13 / 269 boundaries
     for code, k in ((PING, "ping"), (PONG, "pong"), (RELEASE, "release"), (CSM, "csm")):
         for body in (2, 12, 13, 268, 269):
@@ -745,7 +747,7 @@ def work(rep, args):
         # ---- inputs for the evaluator (generated; what is expected comes from TLC)
         sers = ser_cases(rng, args.tier)
         seqs = boundary_sequences(rng, args.tier)
-        nrand = 90 if quick else 3000
+        nrand = 80 if quick else 3000
         nbig = 0
         for i in range(nrand):
             big_ok = (nbig < (3 if quick else 30)) and rng.random() < 0.1
